@@ -214,7 +214,10 @@ impl Nodegraph {
 
             if rem != 0 {
                 let mut cursor = [0u8; 4];
-                LittleEndian::write_u32(&mut cursor, count.as_slice()[div]);
+                LittleEndian::write_u32(
+                    &mut cursor,
+                    count.as_slice().get(div).copied().unwrap_or(0),
+                );
                 for item in cursor.iter().take(rem) {
                     wtr.write_u8(*item)?;
                 }
